@@ -177,7 +177,7 @@ pub fn random_cfg(rng: &mut impl Rng, profile: &str) -> Cfg {
         st_preset: pick(rng, &["none", "none", "mi", "sha"]).to_string(),
         fp: rng.random_range(0..100) < 40,
         max_tx: *wpick(rng, &[(1, 0usize), (3, 1), (3, 2), (3, 3), (2, 4), (3, 10)]),
-        order: rng.random_range(0..6),
+        order: rng.random_range(0..12),
         // user names: ASCII, one with a (precomposed) non-ASCII letter, a one-letter name
         user: pick(rng, &["alice", "alice", "ali\u{e9}ce", "x"]).to_string(),
         // sometimes a password that OpaqueString changes (NO-BREAK SPACE -> SPACE)
